@@ -91,7 +91,7 @@ Qed.
 Lemma wfb_nil : wfb [].
 Proof. constructor. Qed.
 
-Lemma wfb_concat (l : list bytes) : wfb (concat l) <-> Forall wfb l.
+Lemma wfb_concat (l : list bytes) : wfb (List.concat l) <-> Forall wfb l.
 Proof. unfold wfb. apply Forall_concat. Qed.
 
 (* ---- be / unbe ---------------------------------------------------------- *)
